@@ -105,5 +105,32 @@ w('''// the stub for methods that a protocol version does not support: read-only
 
 exec(open(os.path.join(HERE, 'gen_tail.py')).read())
 exec(open(os.path.join(HERE, 'gen_tail2.py')).read())
-open(f'{REPO}/x/cpc/keeper/verif_contracts.go', 'w').write('\n'.join(out) + '\n')
+exec(open(os.path.join(HERE, 'gen_tail3.py')).read())
+# every VERIFIED contract is also checked for C01 (deterministic block execution): no node-local source is called, and
+# every verified callee carries the same clause (assumed / pure summaries are exempt)
+DET = '//@   deterministic[C01.no_node_local_source]'
+def add_det(text):
+    lines = text.split('\n')
+    res = []
+    i = 0
+    while i < len(lines):
+        l = lines[i]
+        if l.startswith('//@ func '):
+            j = i + 1
+            while j < len(lines) and (lines[j].startswith('//@   ') or lines[j].startswith('//@ loop')):
+                j += 1
+            block = lines[i:j]
+            body = '\n'.join(block)
+            if '//@   assumed' not in body and 'deterministic' not in body:
+                res.append(l)
+                res.append(DET)
+                res.extend(block[1:])
+            else:
+                res.extend(block)
+            i = j
+        else:
+            res.append(l)
+            i += 1
+    return '\n'.join(res)
+open(f'{REPO}/x/cpc/keeper/verif_contracts.go', 'w').write(add_det('\n'.join(out)) + '\n')
 print('executors:', len(order))
